@@ -3,6 +3,7 @@ package symgo
 import (
 	"fmt"
 	"go/token"
+	"go/types"
 	"unicode/utf8"
 )
 
@@ -301,7 +302,11 @@ func registerIntrinsics(in *Interp) {
 		return in.errorValue(concreteStr(a[0]))
 	})
 	R("fmt.Sprintf", func(in *Interp, a []Value, s *cinstr) Value {
-		return strV(concreteStr(a[0]))
+		return strFromCells(in.fmtFormat(concreteStr(a[0]), variadicArgs(a[1]), s))
+	})
+	R("fmt.Appendf", func(in *Interp, a []Value, s *cinstr) Value {
+		cells := in.fmtFormat(concreteStr(a[1]), variadicArgs(a[2]), s)
+		return in.appendSlice(a[0], strFromCells(cells), in.lay.of(types.Typ[types.Uint8]))
 	})
 	R("fmt.Sprint", func(in *Interp, a []Value, s *cinstr) Value { return strV("<fmt.Sprint>") })
 	R("fmt.Sprintln", func(in *Interp, a []Value, s *cinstr) Value { return strV("<fmt.Sprintln>\n") })
